@@ -78,12 +78,15 @@ Proof. intros A l. unfold wf_int. generalize (len l). intros. lia. Qed.
 Lemma wf_short_strlen : forall s, wf_string s = true -> wf_short (len s) = true.
 Proof. intros s H. unfold wf_string in H. apply andb_prop in H. apply wf_short_len. tauto. Qed.
 
-Ltac side := solve [assumption | reflexivity
+Lemma wf_short_cl : forall cl, wf_cl cl = true -> wf_short cl = true.
+Proof. intros cl H. unfold wf_cl in H. unfold wf_short. lia. Qed.
+
+Ltac side := solve [assumption | reflexivity | apply wf_short_cl; assumption
                     | apply wf_short_len; assumption | apply wf_int_len; assumption
                     | apply wf_short_strlen; assumption
                     | apply wf_short_len; unfold wf_sbytes in *; assumption
                     | apply wf_int_len; unfold wf_lbytes, wf_obytes in *; assumption
-                    | cbv beta iota delta [wf_short wf_int wf_sbytes wf_lbytes wf_obytes wf_byte wf_wt] in *;
+                    | cbv beta iota delta [wf_short wf_int wf_sbytes wf_lbytes wf_obytes wf_byte wf_wt wf_cl] in *;
                       repeat match goal with |- context [len ?l] => pose proof (len_nonneg l); generalize dependent (len l); intros end;
                       lia].
 
